@@ -192,3 +192,62 @@ func c19R2Table(h H) (bad string, n int) {
 	}
 	return "", n
 }
+
+// c19AcceptTable: a new connection's accumulation buffer starts empty.  The buffers are pooled: one that went back
+// with bytes of an earlier connection behind the hello must be emptied before it is used again, or the next
+// connection's ClientHello is parsed from the middle of somebody else's bytes.
+func c19AcceptTable(h H) string {
+	fn := h.p.Func(hs, "(*tlsHelloListener).Accept")
+	if fn == nil {
+		return "httpserver.(*tlsHelloListener).Accept not found"
+	}
+	lisT := fn.Params[0].Type().(*types.Pointer).Elem()
+	bufT := h.p.typeByName("bytes", "Buffer")
+	pooled := &aobj{name: "pooled buffer (holding bytes of an earlier connection)", typ: bufT, f: map[string]aval{}}
+	dirty := true
+	var installed aval
+	var helloConn *aobj
+	env := &absEnv{noFork: true, maxSteps: 100000, globals: map[string]*aobj{}}
+	env.ext = func(callee string, args []aval) (aval, bool) {
+		switch {
+		case callee == "invoke:Accept":
+			return atuple{aiface{aptr{&aobj{name: "connection", typ: types.Typ[types.Int], f: map[string]aval{}}, ""}, types.Typ[types.Int]}, anil{}}, true
+		case strings.HasSuffix(callee, "sync.Pool).Get"):
+			return aiface{aptr{pooled, ""}, types.NewPointer(bufT)}, true
+		case callee == "(*bytes.Buffer).Reset", callee == "(*bytes.Buffer).Truncate":
+			if p, ok := args[0].(aptr); ok && p.obj == pooled {
+				dirty = false
+			}
+			return atuple{}, true
+		case callee == "crypto/tls.Server":
+			if i, ok := args[0].(aiface); ok {
+				if p, ok := i.val.(aptr); ok {
+					helloConn = p.obj
+					installed = env.load(p.obj, joinPath(p.path, "buf"))
+				}
+			}
+			return aptr{&aobj{name: "tls connection", typ: types.Typ[types.Int], f: map[string]aval{}}, ""}, true
+		}
+		return nil, false
+	}
+	lis := &aobj{name: "listener", typ: lisT, f: map[string]aval{}}
+	lis.in = func(o *aobj, path string, t types.Type) aval {
+		if path == "Listener" {
+			return aiface{aptr{&aobj{name: "net listener", typ: types.Typ[types.Int], f: map[string]aval{}}, ""}, types.Typ[types.Int]}
+		}
+		return aunk{"listener field " + path}
+	}
+	if _, und := env.run(fn, []aval{aptr{lis, ""}}); und != "" {
+		return "Accept: undecided — " + und
+	}
+	if helloConn == nil {
+		return "Accept does not hand a ClientHello-recording connection to tls.Server"
+	}
+	if p, ok := installed.(aptr); ok && p.obj == pooled && dirty {
+		return "the connection is given a pooled buffer that still holds the bytes of an earlier connection (it is not emptied before use)"
+	}
+	if _, ok := installed.(aptr); !ok {
+		return "the connection's accumulation buffer is " + describeAval(installed)
+	}
+	return ""
+}
